@@ -89,46 +89,7 @@ func c15ResendLoop(e *c15env) {
 	}
 	bgObj := e.obj(e.bgResend)
 	// aliases of a session variable: the receivers / parameters it is bound to in same-package calls
-	aliases := func(f *flow.Func, obj types.Object) map[types.Object]bool {
-		out := map[types.Object]bool{obj: true}
-		frontier := []*flow.Func{f}
-		for d := 0; d < 2; d++ {
-			var next []*flow.Func
-			for _, g := range frontier {
-				for _, call := range calls(g.Body, true) {
-					o, recv := c15callee(g, call)
-					h := e.byObj[o]
-					if h == nil {
-						continue
-					}
-					is := func(x ast.Expr) bool {
-						id, ok := ast.Unparen(x).(*ast.Ident)
-						return ok && out[c15objOf(g, id)]
-					}
-					hit := false
-					if recv != nil && is(recv) {
-						if fd, ok := h.Node.(*ast.FuncDecl); ok && fd.Recv != nil && len(fd.Recv.List) == 1 && len(fd.Recv.List[0].Names) == 1 {
-							out[h.Info.Defs[fd.Recv.List[0].Names[0]]] = true
-							hit = true
-						}
-					}
-					for i, a := range call.Args {
-						if is(a) {
-							if pid := e.paramIdent(h, i); pid != nil {
-								out[h.Info.Defs[pid]] = true
-								hit = true
-							}
-						}
-					}
-					if hit {
-						next = append(next, h)
-					}
-				}
-			}
-			frontier = next
-		}
-		return out
-	}
+	aliases := e.aliases
 	isResendGo := func(f *flow.Func, n ast.Node, objs map[types.Object]bool) bool {
 		gs, ok := n.(*ast.GoStmt)
 		if !ok {
@@ -192,18 +153,99 @@ func c15ResendLoop(e *c15env) {
 		}
 		return false
 	}
-	ctors := 0
+	// returnsFresh: f hands a new session to its caller directly (`return &Session{..}`)
+	returnsFresh := func(f *flow.Func) bool {
+		found := false
+		ast.Inspect(f.Body, func(n ast.Node) bool {
+			switch r := n.(type) {
+			case *ast.FuncLit:
+				return false
+			case *ast.ReturnStmt:
+				for _, x := range r.Results {
+					if isNewSession(f, x) {
+						found = true
+					}
+				}
+			}
+			return true
+		})
+		return found
+	}
+	// boundTo: the variable a call's result is bound to (nil if it is used in another way)
+	boundTo := func(f *flow.Func, call *ast.CallExpr) types.Object {
+		var obj types.Object
+		ast.Inspect(f.Body, func(n ast.Node) bool {
+			switch s := n.(type) {
+			case *ast.AssignStmt:
+				if len(s.Rhs) == 1 && ast.Unparen(s.Rhs[0]) == ast.Expr(call) && len(s.Lhs) >= 1 {
+					if id, ok := s.Lhs[0].(*ast.Ident); ok && id.Name != "_" {
+						obj = c15objOf(f, id)
+					}
+				}
+			case *ast.ValueSpec:
+				if len(s.Values) == 1 && ast.Unparen(s.Values[0]) == ast.Expr(call) && len(s.Names) >= 1 {
+					obj = f.Info.Defs[s.Names[0]]
+				}
+			}
+			return true
+		})
+		return obj
+	}
+	hasGo := func(f *flow.Func, obj types.Object) bool {
+		objs := aliases(f, obj)
+		started := false
+		for _, g := range e.reachOf(f, 2) {
+			ast.Inspect(g.Body, func(n ast.Node) bool {
+				if isResendGo(g, n, objs) {
+					started = true
+				}
+				return true
+			})
+		}
+		return started
+	}
+	// handledBy: every caller of f (a function handing on a session whose loop is not started yet) binds the
+	// session to a variable and starts the loop for it on every path returning it — or hands it on in turn
+	var handledBy func(f *flow.Func, depth int) (bool, string, *flow.State)
+	handledBy = func(f *flow.Func, depth int) (bool, string, *flow.State) {
+		callers := e.sites[e.obj(f)]
+		if len(callers) == 0 || depth > 3 {
+			return false, "", nil
+		}
+		for _, s := range callers {
+			f2 := s.fn
+			robj := boundTo(f2, s.call)
+			if robj == nil {
+				return false, e.name(f2), nil
+			}
+			if hasGo(f2, robj) {
+				if ok, bad := startsFor(f2, robj); !ok {
+					return false, e.name(f2), bad
+				}
+				continue
+			}
+			// f2 does not start the loop itself: it must hand the session on
+			if ok, who, bad := handledBy(f2, depth+1); !ok {
+				if who == "" {
+					who = e.name(f2)
+				}
+				return false, who, bad
+			}
+		}
+		return true, "", nil
+	}
+	sites := 0
 	for _, f := range e.fns {
 		fd := f.Node.(*ast.FuncDecl)
-		// variable holding a new Session
-		var obj types.Object
+		// construction sites: a variable holding a new Session, or a new Session returned directly
+		var objs []types.Object
 		ast.Inspect(fd.Body, func(n ast.Node) bool {
 			switch s := n.(type) {
 			case *ast.AssignStmt:
 				if len(s.Lhs) == len(s.Rhs) {
 					for i, r := range s.Rhs {
 						if id, ok := s.Lhs[i].(*ast.Ident); ok && isNewSession(f, r) {
-							obj = c15objOf(f, id)
+							objs = append(objs, c15objOf(f, id))
 						}
 					}
 				}
@@ -211,64 +253,43 @@ func c15ResendLoop(e *c15env) {
 				if len(s.Names) == len(s.Values) {
 					for i, r := range s.Values {
 						if isNewSession(f, r) {
-							obj = f.Info.Defs[s.Names[i]]
+							objs = append(objs, f.Info.Defs[s.Names[i]])
 						}
 					}
 				}
 			}
 			return true
 		})
-		if obj == nil {
+		direct := returnsFresh(f)
+		if len(objs) == 0 && !direct {
 			continue
 		}
-		ctors++
+		sites++
 		cons := declName(pkg, fd) + "|resend loop started for the new session"
-		ok, bad := startsFor(f, obj)
-		if ok {
+		here := !direct
+		var bad *flow.State
+		for _, obj := range objs {
+			ok, b := startsFor(f, obj)
+			if !ok {
+				here, bad = false, b
+			}
+		}
+		if here {
 			c.Discharge("R-C15-5", cons, pos(c, fd), "go s.backgroundResendPending() on every path returning the session")
 			continue
 		}
-		// one level of callers
-		callersOK, ncallers := true, 0
-		var badCaller string
-		for _, s := range e.sites[e.obj(f)] {
-			ncallers++
-			f2 := s.fn
-			// result must be bound to a variable for which the loop is started
-			var robj types.Object
-			ast.Inspect(f2.Body, func(n ast.Node) bool {
-				if as, ok := n.(*ast.AssignStmt); ok && len(as.Rhs) == 1 && ast.Unparen(as.Rhs[0]) == s.call && len(as.Lhs) == 1 {
-					if id, ok := as.Lhs[0].(*ast.Ident); ok {
-						robj = c15objOf(f2, id)
-					}
-				}
-				return true
-			})
-			started := false
-			if robj != nil {
-				objs := aliases(f2, robj)
-				for _, g := range e.reachOf(f2, 2) {
-					ast.Inspect(g.Body, func(n ast.Node) bool {
-						if isResendGo(g, n, objs) {
-							started = true
-						}
-						return true
-					})
-				}
-			}
-			if !started {
-				callersOK = false
-				badCaller = e.name(f2)
-			}
-		}
-		if callersOK && ncallers > 0 {
-			c.Discharge("R-C15-5", cons, pos(c, fd), "started by every direct caller")
+		// the session leaves this function without its loop: the callers (transitively) must start it
+		if ok, who, b := handledBy(f, 0); ok {
+			c.Discharge("R-C15-5", cons, pos(c, fd), "started by every caller the new session is handed to, on every path returning it")
 		} else {
+			if b != nil {
+				bad = b
+			}
 			c.Violate("R-C15-5", cons, pos(c, fd), "a Session is created without its resend loop: unacknowledged QoS1 messages of that session are never retransmitted (not started here"+
-				map[bool]string{true: ", nor in caller " + badCaller, false: ""}[badCaller != ""]+")", witness(bad)...)
+				map[bool]string{true: ", nor in caller " + who, false: ""}[who != ""]+")", witness(bad)...)
 		}
 	}
-	c.RequireCount("R-C15-5", "functions building a Session", ctors, 2)
+	c.RequireCount("R-C15-5", "construction sites of a Session", sites, 1)
 }
 
 // c15Registry: R-C15-6.
@@ -535,4 +556,46 @@ func c15rootIdent(x ast.Expr) *ast.Ident {
 			return nil
 		}
 	}
+}
+
+// aliases of a variable: the receivers / parameters it is bound to in same-package calls (two levels).
+func (e *c15env) aliases(f *flow.Func, obj types.Object) map[types.Object]bool {
+	out := map[types.Object]bool{obj: true}
+	frontier := []*flow.Func{f}
+	for d := 0; d < 2; d++ {
+		var next []*flow.Func
+		for _, g := range frontier {
+			for _, call := range calls(g.Body, true) {
+				o, recv := c15callee(g, call)
+				h := e.byObj[o]
+				if h == nil {
+					continue
+				}
+				is := func(x ast.Expr) bool {
+					id, ok := ast.Unparen(x).(*ast.Ident)
+					return ok && out[c15objOf(g, id)]
+				}
+				hit := false
+				if recv != nil && is(recv) {
+					if fd, ok := h.Node.(*ast.FuncDecl); ok && fd.Recv != nil && len(fd.Recv.List) == 1 && len(fd.Recv.List[0].Names) == 1 {
+						out[h.Info.Defs[fd.Recv.List[0].Names[0]]] = true
+						hit = true
+					}
+				}
+				for i, a := range call.Args {
+					if is(a) {
+						if pid := e.paramIdent(h, i); pid != nil {
+							out[h.Info.Defs[pid]] = true
+							hit = true
+						}
+					}
+				}
+				if hit {
+					next = append(next, h)
+				}
+			}
+		}
+		frontier = next
+	}
+	return out
 }
